@@ -583,4 +583,4 @@ def run(ctx):
                        'solver are evaluated on model systems with recording stubs (which atoms, which neighbours, which cell, argument roles of the least-squares fits, cache clearing); '
                        'match_pq is evaluated on model vector sets. Cython sources are read through Cython\'s parser. Not decided: numerical recovery of a deformation by least squares.')
     from .. import readonly
-    ctx.run_rules([kernels, nye, solve_g, match, slip, disregistry, ddvectors, displacement, p_vectors, lambda c: c02.minfold(c, c02.DV, 'dvect_c', True), lambda c: readonly.rule(c, ST, floor=20) and None, lambda c: readonly.rule(c, SV, floor=1) and None])
+    ctx.run_rules([kernels, nye, solve_g, match, slip, disregistry, ddvectors, displacement, p_vectors, lambda c: c02.minfold(c, c02.DV, 'dvect_c', True), lambda c: readonly.rule(c, ST, floor=10) and None, lambda c: readonly.rule(c, SV, floor=1) and None])
